@@ -225,6 +225,9 @@ package store
 //@   ghost update @s.snapshotStore.SetDueNext: fullSet = true
 //@   ensures [signal-always] signalled && nProcess == 1
 //@   ensures [load-full] isLoad ==> fullSet
+//@   ghost var cdcRearmed bool = false
+//@   ghost update after @?s.cdcRegistered.Unset: cdcRearmed = true
+//@   ensures [load-rearms-cdc-hooks] isLoad ==> cdcRearmed
 //
 // ---- C15(a) / C20 / C17 / C36: the write and unified entry points --------------------------------
 // Execute: the pragma guard runs before anything else can happen; the request reaches the log only
@@ -363,6 +366,9 @@ package store
 //@   assert @s.Snapshot: [snapshot-after-full-needed] swapOK && fullSet
 //@   ghost update @s.Snapshot: snapOK = (result == nil)
 //@   ensures [nil-means-installed] result1 == nil ==> (swapOK && fullSet && snapOK)
+//@   ghost var cdcRearmed bool = false
+//@   ghost update after @?s.cdcRegistered.Unset: cdcRearmed = true
+//@   ensures [boot-rearms-cdc-hooks] result1 == nil ==> cdcRearmed
 //
 // Process: what one log entry does to the database. LOAD: the bytes of the request are written
 // to a scratch file and that file is swapped in; the entry counts as a database change only if
@@ -758,6 +764,11 @@ package store
 //@   assert @s.fsmIdx.Store: [restore-index] arg0 == li0
 //@   assert @s.dbAppliedIdx.Store: [restore-applied-index] arg0 == li0
 //@   ensures [restored-means-signalled] retErr == nil ==> (fsmSignalled && appliedSignalled)
+// C25: swapping in a new database loses the SQLite hooks: registration is re-armed, so that the next
+// apply registers them on the new connection.
+//@   ghost var cdcRearmed bool = false
+//@   ghost update after @?s.cdcRegistered.Unset: cdcRearmed = true
+//@   ensures [cdc-hooks-rearmed-after-swap] retErr == nil ==> cdcRearmed
 //@   ghost var swapped bool = false
 //@   ghost update after @s.db.Swap: swapped = (result == nil)
 
